@@ -45,9 +45,22 @@ func formatErrorsWithCode(data map[string]interface{}, err error, code string) m
 		}
 	}
 
+	// an entry that is not a graphql error (a transport failure handed up the way the queryer returned it)
+	// has no JSON form of its own: it would be written as {} and its message would be lost
+	formatted := make(graphql.ErrorList, 0, len(errList))
+	for _, entry := range errList {
+		if entry == nil {
+			continue
+		}
+		if _, ok := entry.(*graphql.Error); !ok {
+			entry = graphql.NewError(code, entry.Error())
+		}
+		formatted = append(formatted, entry)
+	}
+
 	return map[string]interface{}{
 		"data":   data,
-		"errors": errList,
+		"errors": formatted,
 	}
 }
 
